@@ -183,7 +183,7 @@ class C07(PropertyCheck):
     # ------------------------------------------------------------------ _sample_condition
     def _sample(self, c, hm):
         ft = frames_of(c)
-        cond = (np.array(c["onsets"], dtype=float), np.array(c["durs"], dtype=float), np.array(c["amps"], dtype=float))
+        cond = (np.array(c["onsets"], dtype=float), np.array(c["durs"], dtype=float), G.amps_array(c))
         snap = Snapshot(ft=ft, on=cond[0], du=cond[1], am=cond[2])
         tags = ["sample", "exact-grid" if c["exact"] else "inexact-grid", "ft=" + c.get("ftdtype", "float64")]
         ftl = plist(ft.tolist())
@@ -239,7 +239,7 @@ class C07(PropertyCheck):
     def _regressor(self, c, hm):
         ft = frames_of(c)
         n, tr, t0, os_, mo = c["n"], c["tr"], c["t0"], c["os"], c["min_onset"]
-        cond = (np.array(c["onsets"], dtype=float), np.array(c["durs"], dtype=float), np.array(c["amps"], dtype=float))
+        cond = (np.array(c["onsets"], dtype=float), np.array(c["durs"], dtype=float), G.amps_array(c))
         hrf = c["hrf"]
         snap = Snapshot(ft=ft, on=cond[0], du=cond[1], am=cond[2])
         # observe the TR and the kernels at compute_regressor's own call of _hrf_kernel
@@ -315,8 +315,11 @@ class C07(PropertyCheck):
         ftf = np.asarray(ft, dtype=float)
         if fail is None and single_basis:
             early = ftf < (cond[0].min() - 1e-9 * max(1.0, abs(t0)))
-            if np.any(np.abs(creg[early]) > 1e-12 * scale):
-                r = int(np.nonzero(np.abs(creg[early]).max(axis=1) > 1e-12 * scale)[0][0])
+            # linear interpolation between grid points one rounding apart from the frame time picks up
+            # eps * |t| / dt of the next sample (inexact grids far from the time origin)
+            ctol = (1e-12 + 8 * np.finfo(float).eps * float(np.abs(ftf).max()) / dt) * scale
+            if np.any(np.abs(creg[early]) > ctol):
+                r = int(np.nonzero(np.abs(creg[early]).max(axis=1) > ctol)[0][0])
                 fail = (f"compute_regressor({hrf}): row {r} (t={ftf[r]}) is non-zero although every onset is later "
                         f"(first onset {cond[0].min()})")
         # shift consistency under the hypotheses of Props/C07Grid.regressor_shift_whole_scans:
